@@ -397,15 +397,15 @@ func (in *inst) stepStmt(pos token.Pos, class string) ast.Stmt {
 }
 
 // refuseConcurrency fails closed on constructs the cooperative scheduler does not
-// model: goroutines started by the library itself, channel operations, select.
+// model: channel operations, select, sync.Cond.  (go statements are rewritten: the goroutine
+// becomes a task of the simulated world, see rewriteGo; joins through WaitGroup/Mutex/Once are
+// simulated, joins through channels are not.)
 // An instrumented copy that ran them would have two real threads inside the
 // simulator's bookkeeping - nondeterministic, and a source of false alarms.
 func (in *inst) refuseConcurrency(f *ast.File) {
 	ast.Inspect(f, func(n ast.Node) bool {
 		what := ""
 		switch x := n.(type) {
-		case *ast.GoStmt:
-			what = "go statement"
 		case *ast.SelectStmt:
 			what = "select statement"
 		case *ast.SendStmt:
@@ -453,6 +453,31 @@ func (in *inst) rewriteFile(f *ast.File) {
 		default:
 			syncUsed = true
 		}
+		return true
+	})
+
+	// runtime.GOMAXPROCS(n) / runtime.NumCPU() -> simrt.NumProcs(): the real values differ between
+	// worker processes and must not decide what the library does
+	ast.Inspect(f, func(n ast.Node) bool {
+		call, ok := n.(*ast.CallExpr)
+		if !ok {
+			return true
+		}
+		sel, ok := call.Fun.(*ast.SelectorExpr)
+		if !ok {
+			return true
+		}
+		id, ok := sel.X.(*ast.Ident)
+		if !ok {
+			return true
+		}
+		pn, ok := in.info.Uses[id].(*types.PkgName)
+		if !ok || pn.Imported().Path() != "runtime" || (sel.Sel.Name != "GOMAXPROCS" && sel.Sel.Name != "NumCPU") {
+			return true
+		}
+		call.Fun = &ast.SelectorExpr{X: ast.NewIdent(rtAlias), Sel: ast.NewIdent("NumProcs")}
+		call.Args = nil
+		in.usedRT = true
 		return true
 	})
 
@@ -504,7 +529,18 @@ func (in *inst) rewriteFile(f *ast.File) {
 		b.List = append([]ast.Stmt{in.stepStmt(poss[i], "ClassEntry")}, b.List...)
 	}
 
-	// imports
+	// imports: "runtime" may have lost its last use to the NumProcs rewrite
+	runtimeUsed := false
+	ast.Inspect(f, func(n ast.Node) bool {
+		if sel, ok := n.(*ast.SelectorExpr); ok {
+			if id, ok := sel.X.(*ast.Ident); ok && id.Name == "runtime" {
+				if pn, ok := in.info.Uses[id].(*types.PkgName); ok && pn.Imported().Path() == "runtime" {
+					runtimeUsed = true
+				}
+			}
+		}
+		return true
+	})
 	hadSync := false
 	for _, d := range f.Decls {
 		gd, ok := d.(*ast.GenDecl)
@@ -519,6 +555,9 @@ func (in *inst) rewriteFile(f *ast.File) {
 				if !syncUsed {
 					continue
 				}
+			}
+			if is.Path.Value == `"runtime"` && is.Name == nil && !runtimeUsed {
+				continue
 			}
 			specs = append(specs, s)
 		}
@@ -658,8 +697,45 @@ func (in *inst) rewriteStmt(s ast.Stmt) ast.Stmt {
 		in.rewriteClauses(x.Body)
 	case *ast.SelectStmt:
 		in.rewriteClauses(x.Body)
+	case *ast.GoStmt:
+		return in.rewriteGo(x)
 	}
 	return s
+}
+
+// rewriteGo turns `go f(a, b)` into
+//
+//	{ zzgF := f; zzgA0 := a; zzgA1 := b; zzsimrt.Go(func() { zzgF(zzgA0, zzgA1) }) }
+//
+// (function value and arguments are evaluated by the spawning goroutine, as the language
+// requires), so that the new goroutine is scheduled by the simulator like a caller task.
+func (in *inst) rewriteGo(g *ast.GoStmt) ast.Stmt {
+	in.usedRT = true
+	in.tmp++
+	id := ast.NewIdent
+	var pre []ast.Stmt
+	call := g.Call
+	fun := call.Fun
+	switch fun.(type) {
+	case *ast.FuncLit, *ast.Ident:
+	default:
+		name := fmt.Sprintf("zzgF%d", in.tmp)
+		pre = append(pre, &ast.AssignStmt{Lhs: []ast.Expr{id(name)}, Tok: token.DEFINE, Rhs: []ast.Expr{fun}})
+		fun = id(name)
+	}
+	var args []ast.Expr
+	for i, a := range call.Args {
+		name := fmt.Sprintf("zzgA%d_%d", in.tmp, i)
+		pre = append(pre, &ast.AssignStmt{Lhs: []ast.Expr{id(name)}, Tok: token.DEFINE, Rhs: []ast.Expr{a}})
+		args = append(args, id(name))
+	}
+	inner := &ast.CallExpr{Fun: fun, Args: args, Ellipsis: call.Ellipsis}
+	if call.Ellipsis != token.NoPos {
+		inner.Ellipsis = 1
+	}
+	lit := &ast.FuncLit{Type: &ast.FuncType{Params: &ast.FieldList{}}, Body: &ast.BlockStmt{List: []ast.Stmt{&ast.ExprStmt{X: inner}}}}
+	spawn := &ast.ExprStmt{X: &ast.CallExpr{Fun: &ast.SelectorExpr{X: id(rtAlias), Sel: id("Go")}, Args: []ast.Expr{lit}}}
+	return &ast.BlockStmt{List: append(pre, spawn)}
 }
 
 func (in *inst) rewriteClauses(b *ast.BlockStmt) {
